@@ -44,6 +44,8 @@ pub struct Spec {
     pub aux_assert_last: bool,   // also assert the last value of aux column 0
     pub seed: u64,
     pub constant_trace: bool,    // degenerate: start from a fixed point when possible
+    pub rot: Vec<u32>,           // (C01, additive) empty = feature off; rot[c] = j > 0: column c obeys next = g^j * cur (g the trace-domain
+                                 // generator), i.e. the column is a * x^j: a valid column of LOW degree j (declared constraint degree 1)
 }
 
 impl Spec {
@@ -51,8 +53,10 @@ impl Spec {
     pub fn simple(width: usize, log_n: u32, deg: u32, seed: u64) -> Self {
         Spec { width, log_n, degs: vec![deg; width], periodic: vec![], use_per: vec![false; width], hold: vec![false; width], exemptions: 1,
                assertions: vec![AKind::Single { col: 0, step: 0 }], aux_width: 0, aux_rands: 0, aux_assert_last: false,
-               seed, constant_trace: false }
+               seed, constant_trace: false, rot: vec![] }
     }
+    /// (C01) rotation exponent of column c (0 = ordinary column)
+    pub fn rot_of(&self, c: usize) -> u32 { if self.hold[c] { 0 } else { self.rot.get(c).copied().unwrap_or(0) } }
     /// Serialise the shape (not the values) for the public inputs / trace metadata.
     pub fn to_u64s(&self) -> Vec<u64> {
         let mut v = vec![self.width as u64, self.log_n as u64, self.exemptions as u64, self.aux_width as u64,
@@ -69,6 +73,7 @@ impl Spec {
                 AKind::Sequence { col, first, stride } => v.extend([2, *col as u64, *first as u64, *stride as u64]),
             }
         }
+        if !self.rot.is_empty() { v.push(self.rot.len() as u64); v.extend(self.rot.iter().map(|&d| d as u64)); }
         v
     }
     fn small_consts<B: StarkField>(&self) -> Vec<B> {
@@ -80,7 +85,7 @@ impl Spec {
         self.periodic.iter().map(|&len| (0..len).map(|_| B::from((r.below(7)) as u32)).collect()).collect()
     }
     pub fn per_index(&self, c: usize) -> Option<usize> {
-        if !self.periodic.is_empty() && self.use_per[c] && !self.hold[c] { Some(c % self.periodic.len()) } else { None }
+        if !self.periodic.is_empty() && self.use_per[c] && !self.hold[c] && self.rot_of(c) == 0 { Some(c % self.periodic.len()) } else { None }
     }
 }
 
@@ -94,6 +99,7 @@ fn pow<E: FieldElement>(x: E, d: u32) -> E {
 pub fn step_main<B: StarkField>(spec: &Spec, cur: &[B], step: usize, pers: &[Vec<B>], ks: &[B]) -> Vec<B> {
     (0..spec.width).map(|c| {
         if spec.hold[c] { return cur[c]; }
+        if spec.rot_of(c) > 0 { return cur[c] * B::get_root_of_unity(spec.log_n).exp((spec.rot_of(c) as u64).into()); }
         let per = match spec.per_index(c) { Some(i) => B::ONE + pers[i][step % pers[i].len()], None => B::ONE };
         pow(cur[c], spec.degs[c]) * per + ks[c] * cur[(c + 1) % spec.width]
     }).collect()
@@ -113,7 +119,7 @@ pub fn gen_main<B: StarkField>(spec: &Spec) -> Vec<Vec<B>> {
             cur = step_main(spec, &cur, step, &pers, &ks);
             // rows that only take part in exempt transitions may hold anything: exercise that
             if step + 1 > n - spec.exemptions && !spec.constant_trace {
-                for c in 0..spec.width { if !spec.hold[c] { cur[c] += B::from((r.below(3)) as u32); } }
+                for c in 0..spec.width { if !spec.hold[c] && spec.rot_of(c) == 0 { cur[c] += B::from((r.below(3)) as u32); } }
             }
         }
     }
@@ -206,7 +212,7 @@ impl<B: StarkField + ExtensibleField<2> + ExtensibleField<3>> Air for FamAir<B> 
 
     fn new(trace_info: TraceInfo, pi: PubInputs<B>, options: ProofOptions) -> Self {
         let spec = pi.spec.clone();
-        let main_degrees: Vec<_> = (0..spec.width).map(|c| if spec.hold[c] { TransitionConstraintDegree::new(1) } else { match spec.per_index(c) {
+        let main_degrees: Vec<_> = (0..spec.width).map(|c| if spec.hold[c] || spec.rot_of(c) > 0 { TransitionConstraintDegree::new(1) } else { match spec.per_index(c) {
             Some(i) => TransitionConstraintDegree::with_cycles(spec.degs[c] as usize, vec![spec.periodic[i]]),
             None => TransitionConstraintDegree::new(spec.degs[c] as usize),
         } }).collect();
@@ -229,6 +235,7 @@ impl<B: StarkField + ExtensibleField<2> + ExtensibleField<3>> Air for FamAir<B> 
         let w = self.spec.width;
         for c in 0..w {
             if self.spec.hold[c] { result[c] = nxt[c] - cur[c]; continue; }
+            if self.spec.rot_of(c) > 0 { result[c] = nxt[c] - cur[c] * E::from(B::get_root_of_unity(self.spec.log_n).exp((self.spec.rot_of(c) as u64).into())); continue; }
             let per = match self.spec.per_index(c) { Some(i) => E::ONE + periodic_values[i], None => E::ONE };
             result[c] = nxt[c] - (pow(cur[c], self.spec.degs[c]) * per + E::from(self.ks[c]) * cur[(c + 1) % w]);
         }
@@ -367,7 +374,7 @@ pub fn random_spec(r: &mut Rng, max_log_n: u32, blowup: usize) -> Spec {
     }
     let (aux_width, aux_rands) = if r.chance(1, 4) { (1 + r.below(3) as usize, 1 + r.below(3) as usize) } else { (0, 0) };
     Spec { width, log_n, degs, periodic, use_per, hold, exemptions, assertions, aux_width, aux_rands, aux_assert_last: false,
-           seed: r.next_u64(), constant_trace: false }
+           seed: r.next_u64(), constant_trace: false, rot: vec![] }
 }
 
 /// Declared degrees must fit the constraint-evaluation blowup and the exemption rule of AirContext; adjust a spec so that
